@@ -143,6 +143,9 @@ func render(t *rapid.T, toks []Tok, dense, bang bool) (string, int) {
 				nextS = toks[i+1].S
 			}
 			switch mode := rapid.IntRange(0, 3).Draw(t, "asi"); {
+			case mode == 2 && k.AfterDoWhile && !last && !toks[i+1].Semi:
+				asi++
+				continue // rule: the semicolon that ends a do-while statement, wherever the next token stands
 			case mode == 0 && (last || nextS == "}"):
 				asi++
 				continue // rule: before } and at the end of input
